@@ -36,6 +36,9 @@ def gen_model(rng, T, smax, vals):
                     qq[k + 1][l2] = list(qq[k + 1][l1])
         c['dup'] = dup
     c['again'] = rng.random() < 0.3
+    if 'dup' not in c and rng.random() < 0.25:
+        k = rng.randrange(T)
+        c['none'] = [k, rng.randrange(ns[k])]
     return c
 
 
@@ -98,29 +101,36 @@ def run_impl(case):
     T = len(ns)
     tr = Track([Obs(ENUCoords(i, 0, 0), ObsTime.readUnixTime(i)) for i in range(T)])
     tr.createAnalyticalFeature('o', 0.0)
-    idx = lambda k, s: (s - 100 * (k + 1)) // 7
+    nn = case.get('none')                          # one candidate state may be the label None (an "unmatched / off-road" state)
+    idx = lambda k, s: nn[1] if s is None else (s - 100 * (k + 1)) // 7
+    lab = lambda k, l: None if (nn and nn[0] == k and nn[1] == l) else label(k, canon(case, k, l))
     sign = -1.0 if case['log'] else 1.0
-    hmm = HMM(S=lambda t, k: [label(k, canon(case, k, l)) for l in range(ns[k])],
+    hmm = HMM(S=lambda t, k: [lab(k, l) for l in range(ns[k])],
               Q=lambda s1, s2, k, t: sign * float(qq[k + 1][idx(k, s1)][idx(k + 1, s2)]),
               P=lambda s, y, k, t: sign * float(p[k][idx(k, s)]), log=case['log'])
     if case.get('again'):                         # the same track object was decoded before, with another model over the same candidate lists
-        h0 = HMM(S=lambda t, k: [label(k, canon(case, k, l)) for l in range(ns[k])],
+        h0 = HMM(S=lambda t, k: [lab(k, l) for l in range(ns[k])],
                  Q=lambda s1, s2, k, t: sign * 1.0,
                  P=lambda s, y, k, t: sign * float(p[k][::-1][idx(k, s)] if not case.get('dup') else 1.0), log=case['log'])
         h0.estimate(tr, 'o', verbose=0)
     hmm.estimate(tr, 'o', verbose=0)
     # the cost tables the implementation itself used
-    pc = [[-hmm.Plog(label(k, l), None, k, tr) for l in range(ns[k])] for k in range(T)]
-    qc = [None] + [[[-hmm.Qlog(label(k - 1, m), label(k, l), k - 1, tr) for l in range(ns[k])] for m in range(ns[k - 1])] for k in range(1, T)]
+    pc = [[-hmm.Plog(lab(k, l), None, k, tr) for l in range(ns[k])] for k in range(T)]
+    qc = [None] + [[[-hmm.Qlog(lab(k - 1, m), lab(k, l), k - 1, tr) for l in range(ns[k])] for m in range(ns[k - 1])] for k in range(1, T)]
     if case['log']:          # logarithms supplied directly: the model is given the supplied tables themselves, not what Plog / Qlog made of them
         pc = [[float(p[k][l]) for l in range(ns[k])] for k in range(T)]
         qc = [None] + [[[float(qq[k][m][l]) for l in range(ns[k])] for m in range(ns[k - 1])] for k in range(1, T)]
-    return {'inf': [float(x) for x in tr['hmm_inference']], 'cost': float(tr['hmm_cost', T - 1]), 'pc': pc, 'qc': qc}
+    return {'inf': [None if x is None else float(x) for x in tr.getAnalyticalFeature('hmm_inference')], 'cost': float(tr['hmm_cost', T - 1]), 'pc': pc, 'qc': qc}
 
 
 def decode_idx(case, obs):
     out = []
     for k, s in enumerate(obs['inf']):
+        if s is None:
+            nn = case.get('none')
+            if not nn or nn[0] != k:
+                return None
+            out.append(nn[1]); continue
         l = (s - 100 * (k + 1)) / 7
         if l != int(l) or not (0 <= l < case['ns'][k]):
             return None
